@@ -637,20 +637,18 @@ theorem runOps_settled (ops : List Op) (s : St) : Settled (runOps ops s) := by
           · rename_i hp; simpa [Settled] using hp
           · simp [Settled, push]
 
-theorem pollTask_settled (s : St) (hr : ∀ ops, s.task ≠ .run ops → True) (hw : s.woken = false ∨ True) :
-    (∀ ops, s.task ≠ .afterWake ops) ∨ True → Settled (pollTask s) ∨ (∃ ops, s.task = .afterWake ops ∧ False) ∨ s.task = .done := by
-  intro _
+/-- After any task poll the task is settled (a finished task stays finished). -/
+theorem pollTask_is_settled (s : St) : Settled (pollTask s) := by
   unfold pollTask
   cases ht : s.task with
-  | done => exact Or.inr (Or.inr rfl)
-  | run ops => exact Or.inl (runOps_settled _ _)
-  | afterWake ops => exact Or.inl (runOps_settled _ _)
+  | done => simp only; unfold Settled; rw [ht]; trivial
+  | run ops => exact runOps_settled _ _
+  | afterWake ops => exact runOps_settled _ _
   | waiting k ops =>
     simp only
     split
-    · exact Or.inl (runOps_settled _ _)
+    · exact runOps_settled _ _
     · rename_i hk
-      refine Or.inl ?_
       simp only [Settled]
       refine ⟨by simpa using hk, ?_⟩
       first | rfl | trivial
@@ -658,20 +656,12 @@ theorem pollTask_settled (s : St) (hr : ∀ ops, s.task ≠ .run ops → True) (
     simp only
     split
     · rename_i hp
-      refine Or.inl ?_
       unfold Settled
       rw [ht]
       exact hp
     · cases xs with
-      | nil => exact Or.inl (runOps_settled _ _)
-      | cons x rest => exact Or.inl (by simp [Settled, push])
-
-/-- After any task poll the task is settled (a finished task stays finished). -/
-theorem pollTask_settled' (s : St) : Settled (pollTask s) := by
-  rcases pollTask_settled s (fun _ _ => trivial) (Or.inr trivial) (Or.inr trivial) with h | ⟨_, _, hf⟩ | hd
-  · exact h
-  · exact absurd hf id
-  · rw [pollTask_done_id s hd]; unfold Settled; rw [hd]; trivial
+      | nil => exact runOps_settled _ _
+      | cons x rest => simp [Settled, push]
 
 /-- The receiver half of `poll_next` leaves the task, the fired events and the task's registration
 alone. -/
@@ -697,7 +687,7 @@ theorem unwoken_pending_is_external_wait {prog : List Op} {d : List Nat} {c : Bo
       (pollNext s).2.extRegistered = some k := by
   have h1 : GInv prog d c { s with woken := false } := h.congr rfl rfl rfl rfl rfl rfl
   have h2 := pollTask_inv h1
-  have hs := pollTask_settled' { s with woken := false }
+  have hs := pollTask_is_settled { s with woken := false }
   have hdone : (taskDone { s with woken := false } || taskDone (pollTask { s with woken := false })) =
       taskDone (pollTask { s with woken := false }) := by
     cases hd : taskDone { s with woken := false } with
